@@ -410,6 +410,69 @@ func init() {
 		return ex.replacerReplace(r, args[1].(*Str))
 	})
 
+	reg("strconv.Itoa", func(ex *Exec, fr *frame, pos token.Pos, args []value) value { return ex.itoa(args[0].(*smt.Term)) })
+	reg("strconv.FormatInt", func(ex *Exec, fr *frame, pos token.Pos, args []value) value {
+		if c, ok := args[1].(*smt.Term).ConstInt(); !ok || c.Int64() != 10 {
+			panic(ex.unsupported("strconv.FormatInt with base != 10"))
+		}
+		return ex.itoa(args[0].(*smt.Term))
+	})
+	reg("strings.Repeat", func(ex *Exec, fr *frame, pos token.Pos, args []value) value {
+		s := args[0].(*Str)
+		ex.needBytes(s)
+		n := args[1].(*smt.Term)
+		ex.oblige("panic", "strings: negative Repeat count", fr, pos, ex.b.Le(ex.b.I64(0), n))
+		k := int(ex.concretize("repeat", n, 0, 64))
+		r := &Str{}
+		for i := 0; i < k; i++ {
+			r.b = append(r.b, s.b...)
+		}
+		return r
+	})
+	reg("strings.TrimRight", func(ex *Exec, fr *frame, pos token.Pos, args []value) value {
+		s := args[0].(*Str)
+		cut := ex.wantConcrete(args[1], "strings.TrimRight cutset")
+		ex.needBytes(s)
+		end := len(s.b)
+		for end > 0 {
+			var any []*smt.Term
+			for i := 0; i < len(cut); i++ {
+				if cut[i] >= 0x80 {
+					panic(ex.unsupported("strings.TrimRight with non-ASCII cutset"))
+				}
+				any = append(any, ex.b.Eq(s.b[end-1], ex.b.I64(int64(cut[i]))))
+			}
+			if !ex.branch("trimright", ex.b.Or(any...)) {
+				break
+			}
+			end--
+		}
+		return &Str{b: s.b[:end]}
+	})
+	reg("strings.Trim", func(ex *Exec, fr *frame, pos token.Pos, args []value) value {
+		s := args[0].(*Str)
+		cut := ex.wantConcrete(args[1], "strings.Trim cutset")
+		ex.needBytes(s)
+		isCut := func(t *smt.Term) *smt.Term {
+			var any []*smt.Term
+			for i := 0; i < len(cut); i++ {
+				if cut[i] >= 0x80 {
+					panic(ex.unsupported("strings.Trim with non-ASCII cutset"))
+				}
+				any = append(any, ex.b.Eq(t, ex.b.I64(int64(cut[i]))))
+			}
+			return ex.b.Or(any...)
+		}
+		lo, hi := 0, len(s.b)
+		for lo < hi && ex.branch("trim", isCut(s.b[lo])) {
+			lo++
+		}
+		for hi > lo && ex.branch("trim", isCut(s.b[hi-1])) {
+			hi--
+		}
+		return &Str{b: s.b[lo:hi]}
+	})
+
 	// ---- unicode/utf8 ----
 	reg("unicode/utf8.RuneCountInString", func(ex *Exec, fr *frame, pos token.Pos, args []value) value {
 		return ex.runeCount(args[0].(*Str))
